@@ -1113,7 +1113,12 @@ impl<'a, 'b> TryInto<AnnotationBuilder<'a>> for AnnotationCsv<'a> {
                         }
                         SelectorKind::DataKeySelector  => {
                             let dataset = targetdatasets.get(i).unwrap_or(targetdatasets.last().unwrap());
-                            let datakey = targetkeys.get(i).unwrap_or(targetkeys.last().unwrap());
+                            let datakey = targetkeys.get(i).or(targetkeys.last()).ok_or_else(|| StamError::CsvError(
+                                format!(
+                                    "No key specified for subselector #{}", i
+                                ),
+                                "DataKeySelector",
+                            ))?;
                             if dataset.is_empty() {
                                 return Err(StamError::CsvError(
                                 format!(
@@ -1126,7 +1131,12 @@ impl<'a, 'b> TryInto<AnnotationBuilder<'a>> for AnnotationCsv<'a> {
                         }
                         SelectorKind::AnnotationDataSelector  => {
                             let dataset = targetdatasets.get(i).unwrap_or(targetdatasets.last().unwrap());
-                            let data = targetdata.get(i).unwrap_or(targetdata.last().unwrap());
+                            let data = targetdata.get(i).or(targetdata.last()).ok_or_else(|| StamError::CsvError(
+                                format!(
+                                    "No data specified for subselector #{}", i
+                                ),
+                                "AnnotationDataSelector",
+                            ))?;
                             if dataset.is_empty() {
                                 return Err(StamError::CsvError(
                                 format!(
